@@ -2,7 +2,7 @@
 //! short reads, `Interrupted`, cut (crash of the writer), hard I/O error — is decided by a plan.
 
 use std::io::{self, BufRead, Read, Seek, SeekFrom};
-use std::sync::Arc;
+use std::sync::{Arc, Mutex};
 
 use serde::{Deserialize, Serialize};
 
@@ -80,6 +80,8 @@ pub struct ReadCounters {
     pub eintr_calls: Vec<u64>,
 }
 
+pub type SharedCounters = Arc<Mutex<ReadCounters>>;
+
 pub struct SimRead {
     data: Arc<Vec<u8>>,
     pos: usize,
@@ -88,7 +90,14 @@ pub struct SimRead {
     erng: Rng,
     consecutive_eintr: u32,
     pub counters: ReadCounters,
+    shared: Option<SharedCounters>,
     record_splits: bool,
+}
+
+impl Drop for SimRead {
+    fn drop(&mut self) {
+        self.publish();
+    }
 }
 
 impl SimRead {
@@ -109,7 +118,21 @@ impl SimRead {
             erng: Rng::new(eseed),
             consecutive_eintr: 0,
             counters: ReadCounters::default(),
+            shared: None,
             record_splits: false,
+        }
+    }
+
+    /// A handle through which the counters can be read after the reader under test consumed
+    /// (and dropped) this source. Updated on drop and on `publish`.
+    pub fn shared_counters(&mut self) -> SharedCounters {
+        self.record_splits = true;
+        self.shared.get_or_insert_with(Default::default).clone()
+    }
+
+    pub fn publish(&self) {
+        if let Some(s) = &self.shared {
+            *s.lock().unwrap() = self.counters.clone();
         }
     }
 
